@@ -65,6 +65,7 @@ class Engine:
         self.memo = {}
         self.du = {}
         self.stack = []
+        self.arrays = {}      # '@arrN' -> items of an array literal of pieces bound to a helper's parameter
 
     def du_of(self, b):
         if b.path not in self.du:
@@ -108,7 +109,10 @@ class Engine:
             elif k == 'arg':
                 fields = [q[1] for q in r[-1] if q[1] != '[]']
                 base = binding.get(r[1], 'p%d' % r[1])
-                names.add(('n', base + ''.join('.' + f for f in fields)))
+                if isinstance(base, str) and base.startswith('@lit:') and not fields:
+                    names.add(('c', bytes.fromhex(base[5:])))       # a literal handed in by the caller
+                else:
+                    names.add(('n', base + ''.join('.' + f for f in fields)))
             elif k == 'call':
                 t = r[1]
                 c = t.callee
@@ -227,6 +231,12 @@ class Engine:
             if ccb is not None and self.writes(ccb):
                 src = self.iter_source(b, t.args[0], binding, 1)
                 inner = self.templates(ccb, {2: 'item(%s)' % src})
+                m_ = re.search(r'@arr\d+', src or '')
+                if m_ and m_.group(0) in self.arrays and len(inner) == 1 and not any(w_ in src for w_ in ('flatten', 'filter', 'skip', 'take', 'rev')):
+                    seq = ()
+                    for item in self.arrays[m_.group(0)]:
+                        seq += tuple(item if (it[0] == 'h' and str(it[1]).startswith('item(')) else it for it in inner[0])
+                    return [seq]
                 return [(('star', frozenset(Tpl.norm(i) for i in inner)),)]
         if c.path.startswith('std::io::Write::'):
             return [(('unk', c.path),)]
@@ -236,7 +246,17 @@ class Engine:
             tags = {}
             for i, a in enumerate(t.args):
                 d = self.describe(b, a, binding)
-                nb[i + 1] = d if isinstance(d, str) else (repr(d[1]) if d else '?')
+                nb[i + 1] = d if isinstance(d, str) else (('@lit:' + d[1].hex()) if d else '?')
+                # an array literal of pieces handed to a helper that writes them one by one (`write_pieces(w, &[b">", head, b"\n"])`)
+                ars = roots_of(b, a, self.du_of(b), through_calls=lambda c_: 0 if c_ and c_.path in ('std::ops::Deref::deref', 'core::slice::iter', 'core::array::iter', 'std::convert::AsRef::as_ref') else None)
+                if len(ars) == 1 and ars[0][0] == 'agg' and ars[0][1].rv.j.get('agg') == 'array' and not [q for q in ars[0][-1] if q[1] != '[]']:
+                    items = []
+                    for opk in ars[0][1].rv.ops:
+                        dd = self.describe(b, opk, binding)
+                        items.append(('c', dd[1]) if isinstance(dd, tuple) and dd[0] == 'c' else ('h', dd if dd is not None else '?'))
+                    nm = '@arr%d' % len(self.arrays)
+                    self.arrays[nm] = items
+                    nb[i + 1] = nm
                 # a literal None / Some(..) argument: the callee's match on it has one live arm
                 rs = roots_of(b, a, self.du_of(b))
                 vs = set(r[1].rv.j.get('variant') if (r[0] == 'agg' and r[1].rv.j.get('adt', '').endswith('option::Option') and not r[-1]) else '?' for r in rs)
@@ -301,6 +321,18 @@ class Engine:
                 star = ('star', frozenset(Tpl.norm(i) for i in iters))
                 starseq = (star,)
                 arr = self.array_source(b, L)
+                if arr is None and len(set(iters)) == 1:
+                    # the same for an array literal that the caller handed in
+                    for x_ in L:
+                        t_ = b.blocks[x_].term
+                        if t_.k == 'call' and t_.callee and t_.callee.path == 'std::iter::Iterator::next':
+                            src_ = self.iter_source(b, t_.args[0], binding, 1)
+                            m_ = re.search(r'@arr\d+', src_ or '')
+                            if m_ and m_.group(0) in self.arrays and 'flatten' not in src_ and 'filter' not in src_ and 'skip' not in src_ and 'take' not in src_ and 'rev' not in src_:
+                                seq = ()
+                                for item in self.arrays[m_.group(0)]:
+                                    seq += tuple(item if (it[0] == 'h' and str(it[1]).startswith('item(')) else it for it in iters[0])
+                                starseq = seq
                 if arr is not None and len(set(iters)) == 1:
                     # a loop over an array literal `for part in [a, b"..", c]`: unrolled, one iteration per element
                     seq = ()
